@@ -1,10 +1,21 @@
 """C08 - comparisons are coherent: order follows the physical amount, equality is total.
 
-Decided by: Barril/Props/C08.lean over the model Barril/Model/Cmp.lean (Scalar/FractionScalar order through
-`Db.convert`; `==`/`!=`/`hash` of the nine value classes through an explicit model of CPython's rich-comparison
-dispatch).  Tie: (a) order of Scalars and FractionScalars on unit pairs of seeded quantity types, (b) `==`, `!=`,
+Decided by: Barril/Props/C08.lean over the model Barril/Model/Cmp.lean:
+  * `Sc.order` / `FSc.order` = `Scalar` / `FractionScalar.__lt__ .. __ge__` through `_GetValuesToCompare`,
+    `Quantity.ConvertScalarValue` (proved equal to C01's `Db.convert`) and `ConvertFractionValue`;
+  * `pyEq` / `pyNe` / `pyHash` = `==`, `!=`, `hash` of the nine value classes and the builtins they meet, each
+    `__eq__` written after the Python with partial attribute reads (a read of a missing attribute is an error
+    value), inside an explicit model of CPython's `do_richcompare` (reflected method first for a proper
+    subclass, NotImplemented, identity fallback);
+  * `fractionOrder` = `Fraction.__lt__` + `functools.total_ordering`, `fractionOfNumber` = `Fraction(number)`.
+Tie: (a) order of Scalars and FractionScalars on unit pairs of seeded quantity types, (b) `==`, `!=`,
 `hash` on ALL ordered pairs of a pool of objects of every class, (c) Fraction order against numbers/builtins and
-the decimal-shifting loop of `Fraction(number)`."""
+the decimal-shifting loop of `Fraction(number)`.
+
+Known limit of the CODE (not of the check): `ConvertFractionValue` stores the converted numerator through
+`Fraction(number)`, which keeps it only up to SMALL=1e-8; `fscalar_order_iff_base_partial` carries that hypothesis
+and `fscalar_order_counterexample` is the witness (1e-9 m against 0 3/1 nm).  `matches_known`/`replay_finding`
+recognise exactly that input class (matcher class CLASS_FLUSH) if it is registered in known_findings.json."""
 import math
 from collections import OrderedDict
 from fractions import Fraction as F
@@ -31,8 +42,11 @@ ASSUMPTIONS = [
     "the model of them is validated only by the correspondence",
     "finite values only (NaN/inf are outside the model); one-dimensional containers",
     "the loop of Fraction(number) is modelled in exact arithmetic with the float fact 'doubles >= 2**52 are integral'; "
-    "FractionScalar order theorems assume the converted numerator passes that loop unchanged",
+    "FractionScalar order theorems assume the converted numerator passes that loop unchanged (FSc.NumeratorKept); "
+    "without it the code itself is incoherent (theorem fscalar_order_counterexample)",
+    "int and float are one model class `num` (their mixed comparisons are exact in CPython)",
 ]
+CLASS_FLUSH = "fractionscalar-converted-numerator-altered-by-Fraction(number)"
 OPS = ("lt", "le", "gt", "ge")
 PYOP = {"lt": lambda a, b: a < b, "le": lambda a, b: a <= b, "gt": lambda a, b: a > b, "ge": lambda a, b: a >= b}
 
@@ -270,6 +284,7 @@ def setup(ctx):
     for name, ci in ctx.db.categories_to_quantity_types.items():
         cats.setdefault(ci.quantity_type, []).append(name)
     ctx.cats_of_type = cats
+    _CTX[0] = ctx
 
 
 # ---------------------------------------------------------------------------------------------- cases
@@ -555,6 +570,9 @@ def agree(c, io, mo, ctx):
             if not _same_res(io[k], m[k]):
                 return "%s: impl=%r model=%r" % (k, io[k], m[k])
         mord = m["ord"]
+        tags = n.setdefault("order_cases_by_class_and_tag", {})
+        tk = "%s/%s" % (c["cls"], c["_t"]["tag"])
+        tags[tk] = tags.get(tk, 0) + 1
         if "err" in mord:
             n["order_err_" + mord["err"]] = n.get("order_err_" + mord["err"], 0) + 1
             for k in OPS:
@@ -593,6 +611,15 @@ def agree(c, io, mo, ctx):
             return "the model's hash keys are equal but the real hashes differ"
         key = "eq_%s" % ("true" if io["eq"] is True else "false")
         n[key] = n.get(key, 0) + 1
+        pair = "%s==%s" % (c["a"]["c"], c["b"]["c"])
+        d = n.setdefault("eq_true_by_classes" if io["eq"] is True else "eq_false_by_classes", {})
+        d[pair] = d.get(pair, 0) + 1
+        if c["_t"]["i"] == c["_t"]["j"]:
+            h = n.setdefault("hash_outcome_by_class", {})
+            hk = "%s:%s" % (c["a"]["c"], io["ha"])
+            h[hk] = h.get(hk, 0) + 1
+        if m["hkeq"] and not c["same"]:
+            n["equal_hash_keys_on_distinct_objects"] = n.get("equal_hash_keys_on_distinct_objects", 0) + 1
         return None
     if c["op"] == "fracord":
         if "fo" in m:
@@ -606,6 +633,8 @@ def agree(c, io, mo, ctx):
         for k in OPS:
             if not _same_res(io.get(k), m[k]):
                 return "%s: impl=%r model=%r" % (k, io.get(k), m[k])
+        fk = "fracord_%s" % ("typeerror" if isinstance(m["lt"], dict) else "decided")
+        n[fk] = n.get(fk, 0) + 1
         return None
     if c["op"] == "fracof":
         real, mod = qparse(io["x"]), qparse(m)
@@ -679,7 +708,13 @@ def _oracle_order(c, ctx):
         pa = db.Convert(qa, a.GetUnit(), base, float(a.GetValue()))
         pb = db.Convert(qa, b.GetUnit(), base, float(b.GetValue()))
         z = [abs(db.Convert(qa, u, base, 0.0)) for u in (a.GetUnit(), b.GetUnit())]
-        tol = 1e-11 * (abs(pa) + abs(pb) + sum(z)) + 1e-300
+        # a FractionScalar's amount is a float sum number + fraction: rounding is relative to the parts
+        parts = 0.0
+        if c["cls"] == "fscalar":
+            for o, d in ((a, t["a"]), (b, t["b"])):
+                m = abs(_unnum(d["v"][0])) + abs(d["v"][1] / d["v"][2])
+                parts += abs(db.Convert(qa, o.GetUnit(), base, m) - db.Convert(qa, o.GetUnit(), base, 0.0))
+        tol = 1e-11 * (abs(pa) + abs(pb) + sum(z) + parts) + 1e-300
         exact_tie = a.GetUnit() == b.GetUnit() and float(a.GetValue()) == float(b.GetValue())
         if abs(pa - pb) > tol or exact_tie:
             want = {k: PYOP[k](pa, pb) for k in OPS} if not exact_tie else dict(lt=False, le=True, gt=False, ge=True)
@@ -724,6 +759,54 @@ def oracle(c, ctx):
     except Exception as e:
         return dict(clause="the objects of the case could not be built or compared", error=repr(e)[:300])
     return None
+
+
+# ------------------------------------------------------------- known finding: the numerator of a FractionScalar
+_CTX = [None]
+
+
+def _flush_affects(case):
+    """one operand's numerator, converted to the other's unit as an increment, is changed by `Fraction(number)`
+    (relative change > 1e-12): the input class of theorem `fscalar_order_counterexample`"""
+    ctx = _CTX[0]
+    if ctx is None or case.get("op") != "order" or case.get("cls") != "fscalar":
+        return False
+    from barril.basic.fraction import Fraction
+    from barril.units import ObtainQuantity
+
+    def one(src, dst):
+        num = F(src["v"][1], src["v"][2]).numerator
+        try:
+            with _Use(ctx.db):
+                q = ObtainQuantity(src["unit"], src["cat"])
+                x = q.ConvertScalarValue(num, dst["unit"]) - q.ConvertScalarValue(0.0, dst["unit"])
+                y = float(Fraction(x)) if isinstance(x, float) else float(x)
+        except Exception:
+            return False
+        return abs(y - x) > 1e-12 * abs(x)
+
+    t = case["_t"]
+    return one(t["a"], t["b"]) or one(t["b"], t["a"])
+
+
+def matches_known(entry, case, failure):
+    """only the recorded input class is excused: an order comparison of two FractionScalars in which a converted
+    numerator does not survive `Fraction(number)`"""
+    if (entry.get("matcher") or {}).get("class") != CLASS_FLUSH:
+        return False
+    return _flush_affects(case) and "clause" in failure and failure.get("clause") != "== / != must never raise"
+
+
+def replay_finding(entry, ctx):
+    if (entry.get("matcher") or {}).get("class") != CLASS_FLUSH:
+        return None
+    _CTX[0] = ctx
+    rc = entry.get("replay_case") or {}
+    a = rc.get("a", [1e-9, 0, 1, "m", "length"])
+    b = rc.get("b", [0.0, 3, 1, "nm", "length"])
+    c = _order_case(ctx, "fscalar", ((a[0], a[1], a[2]), a[3], a[4]), ((b[0], b[1], b[2]), b[3], b[4]), "known")
+    f = oracle(c, ctx)
+    return f if (f and matches_known(entry, c, f)) else None
 
 
 def search(ctx):
